@@ -7,9 +7,11 @@ cd $W || exit 2
 git checkout -q -- . ; git apply --check $O/patch.diff || { echo "patch does not apply"; exit 2; }
 CMD=$(head -1 $O/demo.cpp | sed 's,^// *,,; s,^/\* *,,; s, *\*/ *$,,')
 echo "demo compile: $CMD"
+make -C $W/include adept_source.h > /dev/null 2>&1
 cd $O
 ( eval "$CMD" ) > demo_clean.build.log 2>&1 ; B=$(ls -t | grep -v '\.' | head -1); ./demo > demo_clean.out 2>&1; R0=$?
 git -C $W apply $O/patch.diff
+make -C $W/include adept_source.h > /dev/null 2>&1
 ( eval "$CMD" ) > demo_mut.build.log 2>&1 ; timeout 120 ./demo > demo_mut.out 2>&1; R1=$?
 echo "demo clean rc=$R0 ; demo with change rc=$R1"
 cd $W; rm -f test/*.o adept/*.o adept/*.lo test/test_results.txt
